@@ -95,8 +95,21 @@ pub fn resolve(cat: Cat, name: &str) -> Option<Pat> {
     by_name(cat, name).ok()
 }
 
+thread_local! {
+    static TABLES: std::rc::Rc<Tables> = std::rc::Rc::new(Tables::build_uncached());
+}
+
+/// Does the simulator have an oracle row (section text) for this pattern? Patterns without one
+/// (e.g. a pattern added to solstat after these tables were written) are kept out of workloads.
+pub fn has_row(p: Pat) -> bool {
+    TABLES.with(|t| t.section_of(p).is_some())
+}
+
 impl Tables {
-    pub fn build() -> Tables {
+    pub fn build() -> std::rc::Rc<Tables> {
+        TABLES.with(|t| t.clone())
+    }
+    pub fn build_uncached() -> Tables {
         let mut t = Tables {
             sections: vec![],
             severity: vec![],
@@ -107,8 +120,7 @@ impl Tables {
                 Some(p) => {
                     let text = f();
                     for l in text.lines() {
-                        if l == "### Lines"
-                            || SEVERITIES.iter().any(|s| s.heading() == l)
+                        if SEVERITIES.iter().any(|s| s.heading() == l)
                             || l.contains("(Total Optimizations ")
                             || l.contains("(Total Vulnerabilities ")
                         {
@@ -125,14 +137,29 @@ impl Tables {
                     .push(format!("no pattern for configuration name {}", name)),
             }
         }
-        // attribution needs: no section text is a suffix of another one
+        // attribution needs: no (trimmed) section text occurs inside another one
         for (i, (p, a)) in t.sections.iter().enumerate() {
             for (j, (q, b)) in t.sections.iter().enumerate() {
-                if i != j && a.ends_with(b.as_str()) {
+                if i != j && !b.trim().is_empty() && a.contains(b.trim()) {
                     t.problems.push(format!(
-                        "section text of {:?} ends with the section text of {:?}",
+                        "section text of {:?} contains the section text of {:?}",
                         p, q
                     ));
+                }
+            }
+            if a.trim().is_empty() {
+                t.problems.push(format!("section text of {:?} is empty", p));
+            }
+            for l in a.lines() {
+                if let Some(body) = l.strip_prefix("- ") {
+                    if let Some(c) = body.rfind(':') {
+                        if body[c + 1..].parse::<i64>().is_ok() {
+                            t.problems.push(format!(
+                                "section text of {:?} contains an entry-like line {:?}",
+                                p, l
+                            ));
+                        }
+                    }
                 }
             }
         }
@@ -191,58 +218,70 @@ fn totals(report: &str, marker: &str) -> Vec<(usize, String)> {
     out
 }
 
+/// Read a report back without relying on its decoration: an *entry* is a line `- <file>:<int>`
+/// (split at the last ':'); a *section* is an occurrence of some pattern's explanatory text; an
+/// entry belongs to the nearest section occurrence before it.
 pub fn parse(report: &str, t: &Tables) -> Parsed {
     let mut p = Parsed::default();
     p.total_opt = totals(report, "(Total Optimizations ");
     p.total_vul = totals(report, "(Total Vulnerabilities ");
-    // walk the lines with offsets
-    let mut lines: Vec<(usize, &str)> = vec![];
-    let mut off = 0;
-    for l in report.split('\n') {
-        lines.push((off, l));
-        off += l.len() + 1;
-    }
-    let mut prev_end = 0usize; // end offset of the previous list
-    let mut i = 0;
-    while i < lines.len() {
-        let (o, l) = lines[i];
-        if let Some(s) = SEVERITIES.iter().find(|s| s.heading() == l) {
-            p.severity_lines.push((o, *s));
-        }
-        if l == "### Lines" {
-            let pre = &report[prev_end..o];
-            let mut cands: Vec<Pat> = vec![];
-            for (pat, text) in &t.sections {
-                let mut want = text.clone();
-                want.push('\n');
-                if pre.ends_with(&want) {
-                    cands.push(*pat);
-                }
-            }
-            let mut sec = ParsedSection {
-                pat: if cands.len() == 1 { Some(cands[0]) } else { None },
-                candidates: cands.len(),
-                offset: o,
-                items: vec![],
-                bad_items: vec![],
-            };
-            let mut k = i + 1;
-            while k < lines.len() && lines[k].1.starts_with("- ") {
-                let body = &lines[k].1[2..];
-                match body.rfind(':') {
-                    Some(c) => sec
-                        .items
-                        .push((body[..c].to_string(), body[c + 1..].to_string())),
-                    None => sec.bad_items.push(body.to_string()),
-                }
-                k += 1;
-            }
-            prev_end = if k < lines.len() { lines[k].0 } else { report.len() };
-            p.sections.push(sec);
-            i = k;
+    // section occurrences
+    let mut occ: Vec<(usize, Pat)> = vec![];
+    for (pat, text) in &t.sections {
+        let needle = text.trim();
+        if needle.is_empty() {
             continue;
         }
-        i += 1;
+        let mut from = 0;
+        while let Some(i) = report[from..].find(needle) {
+            occ.push((from + i, *pat));
+            from += i + needle.len();
+        }
+    }
+    occ.sort_by_key(|(o, _)| *o);
+    for (o, pat) in &occ {
+        p.sections.push(ParsedSection {
+            pat: Some(*pat),
+            candidates: 1,
+            offset: *o,
+            items: vec![],
+            bad_items: vec![],
+        });
+    }
+    let mut orphan = ParsedSection {
+        pat: None,
+        candidates: 0,
+        offset: 0,
+        items: vec![],
+        bad_items: vec![],
+    };
+    let mut off = 0;
+    for l in report.split('\n') {
+        if let Some(s) = SEVERITIES.iter().find(|s| s.heading() == l) {
+            p.severity_lines.push((off, *s));
+        }
+        if let Some(body) = l.strip_prefix("- ") {
+            // which section does this line belong to?
+            let idx = match occ.binary_search_by(|(o, _)| o.cmp(&off)) {
+                Ok(i) => Some(i),
+                Err(0) => None,
+                Err(i) => Some(i - 1),
+            };
+            let sec = match idx {
+                Some(i) => &mut p.sections[i],
+                None => &mut orphan,
+            };
+            match body.rfind(':') {
+                Some(c) if body[c + 1..].parse::<i64>().is_ok() => sec
+                    .items
+                    .push((body[..c].to_string(), body[c + 1..].to_string())),
+                _ => sec.bad_items.push(body.to_string()),
+            }
+        }
+        off += l.len() + 1;
+    }
+    if !orphan.items.is_empty() || !orphan.bad_items.is_empty() {
+        p.sections.push(orphan);
     }
     p
 }
@@ -280,11 +319,10 @@ pub fn judge(findings: &Flat, report: &str, t: &Tables) -> Vec<Finding> {
                 prop: "C11",
                 clause: "section_unattributable".into(),
                 detail: format!(
-                    "the list at byte {} ({} items, first {:?}) is preceded by the section text of {} patterns (exactly one expected)",
-                    s.offset,
+                    "{} entries (first {:?}) and {} malformed '- ' lines are not preceded by the explanatory section of any pattern",
                     s.items.len(),
                     s.items.first(),
-                    s.candidates
+                    s.bad_items.len()
                 ),
             }),
             Some(p) => {
@@ -300,13 +338,6 @@ pub fn judge(findings: &Flat, report: &str, t: &Tables) -> Vec<Finding> {
                     }
                 }
             }
-        }
-        for b in &s.bad_items {
-            out.push(Finding {
-                prop: "C11",
-                clause: "entry_malformed".into(),
-                detail: format!("entry '- {}' has no ':'", b),
-            });
         }
     }
     back.sort();
